@@ -132,7 +132,7 @@ class Contract:
     def __init__(self, module, file, qual, params, ret=None, yields=None, requires=(), ensures=(), raises=None,
                  raises_ensures=None, locals=None, loops=None, calls=None, globals=None, modifies=(), defaults=None,
                  ignore_kwargs=False, star=None, exc_parents=None, comp_types=None, canaries=(), properties=(),
-                 trusted=False, note="", receiver_classes=None, use=(), inputs=None, native_fn=None, shards=1, native_frame_skip=(), callable_recv=False, no_library=False, cursors=None, index_map_type=None, fresh_result=False, ghost_after=None):
+                 trusted=False, note="", receiver_classes=None, use=(), inputs=None, native_fn=None, shards=1, native_frame_skip=(), callable_recv=False, no_library=False, cursors=None, index_map_type=None, fresh_result=False, ghost_after=None, ghost=None):
         self.no_library = no_library
         self.index_map_type = index_map_type
         self.cursors = dict(cursors or {})
@@ -145,6 +145,8 @@ class Contract:
         # ghost lemma invocations: {"<callee text>#<k>": [(lemma name, {lemma var: expression over the caller's variables and `result`})]}
         # instances of PROVED sidecar lemmas assumed right after the k-th call (source order) of that callee
         self.ghost_after = ghost_after or {}
+        # ghost (logical) variables: name -> Ty; arbitrary values the obligations are proved for, i.e. universally quantified
+        self.ghost = dict(ghost or {})
         self.fresh_result = fresh_result    # the returned object shares nothing with the arguments or any state (assumed for trusted contracts)
         self.module = module
         self.file = file
@@ -270,6 +272,8 @@ def gen_function_vcs(contract, registry, feasible=None, extra_post=None):
     for p, ty in contract.params.items():
         st.env[p] = fresh(ty, p)
         st.env["old:" + p] = st.env[p]
+    for gname, gty in (getattr(contract, "ghost", None) or {}).items():
+        st.env[gname] = fresh(gty, "ghost_" + gname)
     # check the declared parameters against the real signature
     real = [a.arg for a in node.args.posonlyargs + node.args.args + node.args.kwonlyargs]
     if node.args.vararg:
